@@ -434,7 +434,7 @@ BYTE_CLASSES = [
     ('digit', list(range(0x30, 0x3A))), ('sign', [0x23, 0x2B, 0x2D, 0x2E]),
     ('command', [ord(c) for c in 'ABCDEFGLMNOPTX<>']), ('lower', [ord(c) for c in 'abcdefglmnoptx']),
     ('bracket', [0x22, 0x28, 0x29, 0x2C, 0x5B, 0x5D, 0x24, 0x25, 0x21]),
-    ('control', list(range(0, 9))), ('edge', [0xFF, 0x80, 0x7F, 0x0D, 0x0A, 0x09]),
+    ('control', list(range(0, 9))), ('edge', [0xFF, 0x80, 0x7F, 0x0D, 0x0A, 0x09, 0xA0, 0xC8]),
 ]
 BYTE_CLASS = {}
 for _nm, _vals in BYTE_CLASSES:
@@ -756,7 +756,8 @@ def _byte_tag(addresses):
         for v in (a & 0xFF, (a >> 8) & 0xFF):
             if v in BYTE_CLASS:
                 found.add(BYTE_CLASS[v])
-    for nm, _ in BYTE_CLASSES:
+    # (only the classes that are MML syntax around a reference make a class of their own)
+    for nm, _ in BYTE_CLASSES[:5]:
         if nm in found:
             return ':varptr-address-byte-' + nm
     return ':varptr'
@@ -845,19 +846,25 @@ def _body(run):
             new_tones()
 
         def create(names):
-            """Assign 0 or "" to new scalars, a few to a line."""
+            """Assign 0 or "" to new scalars, a few to a line. False: it did not work (out of memory)."""
             line = []
             for nm in list(names) + [None]:
                 if nm is not None:
                     line.append('%s=%s' % (nm, '""' if nm.endswith('$') else '0'))
                     variables[nm.upper()] = '' if nm.endswith('$') else 0
                 if line and (nm is None or sum(len(x) + 1 for x in line) > 180):
-                    direct(b(':'.join(line)))
+                    if direct(b(':'.join(line))).errs:
+                        run.probe('assignment-error')
+                        return False
                     line = []
+            return True
 
         def address(nm):
             """VARPTR of a variable the model knows to exist (coverage and steering only)."""
             return int(d.eval(b('VARPTR(%s)' % nm))) & 0xFFFF
+
+        def shown():
+            return dict((k_, v_) for k_, v_ in variables.items() if not k_.startswith(('PF', 'PZ')))
 
         def exists(nm):
             nm = nm.upper()
@@ -916,31 +923,35 @@ def _body(run):
                     doubtful.discard(nm)
                 if in_program:
                     back_in_direct_mode()
+                    context[0] = context[0] or 'after-stop'
                 if r.errs and not ('(' in nm and arrays.get(nm.split('(')[0]) is None):
+                    # not modelled (out of memory): what the variable holds now is not known
                     run.probe('assignment-error')
+                    lost = True
                 run.state(k, nm[-1], program)
             elif k == 'pad':
-                create(op.get('names', []))
+                lost = not create(op.get('names', []))
                 target = op.get('for')
-                if target is not None and op.get('lo') is not None:
+                if target is not None and op.get('lo') is not None and not lost:
                     shift = None
                     if '(' in target:
                         if exists(target):
                             shift = (op['lo'] - address(target)) % 256
                     elif target.upper() not in variables:
                         mark = 'PZ%02dXX%%' % (op.get('id', 0) % 100)
-                        create([mark])
+                        lost = not create([mark])
                         # the next scalar starts after this integer; its value after a header of 4 bytes
                         # and the name beyond two characters
                         stem = target.rstrip('%!#$')
-                        shift = (op['lo'] - (address(mark) + 2 + 4 + max(0, len(stem) - 2))) % 256
+                        if not lost:
+                            shift = (op['lo'] - (address(mark) + 2 + 4 + max(0, len(stem) - 2))) % 256
                     if shift:
                         # integers named PZ<id><j>Q..: 4 + (length - 2) + 2 bytes each, length 6..40
                         if shift < 10:
                             shift += 256
                         count = -(-shift // 44)
                         sizes = [shift // count + (1 if j < shift % count else 0) for j in range(count)]
-                        create([('PZ%02d%02d' % (op.get('id', 0) % 100, j)).ljust(sz - 4, 'Q') + '%' for j, sz in enumerate(sizes)])
+                        lost = not create([('PZ%02d%02d' % (op.get('id', 0) % 100, j)).ljust(sz - 4, 'Q') + '%' for j, sz in enumerate(sizes)])
                         run.probe('variable-placed')
                 run.state(k, len(op.get('names', [])) > 4, op.get('lo') is not None, program)
             elif k == 'dim':
@@ -965,6 +976,7 @@ def _body(run):
                 r = direct(b(op['text']))
                 if b'Break' in r.out or op['text'] == 'END':
                     back_in_direct_mode()
+                    cont_ok[0] = False
                 if b'Break' in r.out:
                     context[0] = 'after-break'
                 elif r.errs and not context[0]:
@@ -988,6 +1000,8 @@ def _body(run):
                     continue
                 forget_everything()
                 new_tones()
+                if in_program:
+                    context[0] = 'after-stop'
                 run.state(k, program)
             elif k == 'play':
                 mml = op['mml']
@@ -1069,9 +1083,9 @@ def _body(run):
                     run.violate('C42', 'wrong-error' + tag, '%r -> %r' % (source, r))
                 elif err is None and r.err == 5:
                     run.violate('C42', 'wellformed-rejected' + tag, '%r (VARPTR$ addresses %r, variables %r) -> Illegal function call; reference sees %d tones' % (
-                        source, where, variables, len(want)))
+                        source, where, shown(), len(want)))
                 elif err is not None and r.err is None and not fired:
-                    run.violate('C42', 'malformed-accepted:' + err, '%r (variables %r) -> no error, expected Illegal function call' % (source, variables))
+                    run.violate('C42', 'malformed-accepted:' + err, '%r (variables %r) -> no error, expected Illegal function call' % (source, shown()))
                 # ---- tones -----------------------------------------------------------------
                 if err is None and r.err is None and not fired:
                     run.probe('tones-compared', len(want))
@@ -1096,7 +1110,7 @@ def _body(run):
                         run.violate('C42', 'tones-mismatch:%s:%s%s%s' % (
                             bad[0], 'foreground' if before[0] else 'background', tag, ':' + context[0] if context[0] else ''),
                                     '%r with variables %r (VARPTR$ addresses %r), state before (O, L, T, gap, MF) %r%s: %s\nengine   %r\nreference %r' % (
-                                        source, variables, where, state_before, ' carried over: ' + context[0] if context[0] else '',
+                                        source, shown(), where, state_before, ' carried over: ' + context[0] if context[0] else '',
                                         bad[1], got[:12], want[:12]))
                     if len(want) > 0:
                         # the state is confirmed (or the violation is reported once)
